@@ -7,7 +7,7 @@ import warnings
 
 from rac import C08 as B
 
-KNOWN = {B.K_D7}
+KNOWN = set()          # none of the bounded module's input-class keys is a listed finding any more (all fixed): every key counts
 
 
 def ser(idx, vals):
